@@ -30,6 +30,11 @@ def trig_builtins(x):
     return np.array([max(x[0], 0.0), max(x[1], 0.0)]) + (1.0 if any(v > 1 for v in x) else 0.0) + abs(sum(v for v in x)) / 10
 
 
+def sq(x):
+    # the function's name occurs inside its own body (np.sqrt): renaming it in a rendered module must not touch the body (D76)
+    return np.sqrt(x * x + 1.0)
+
+
 def zoo():
     """name -> builder.  Builders return (Model, kind) with kind in {'AE','DAE','FDAE'}."""
     from Solverz import Model, Var, Param, TimeSeriesParam, Eqn, Ode, AliasVar, sin, cos, exp, ln, Abs, Sign, Min, Saturation, heaviside, AntiWindUp
@@ -163,7 +168,14 @@ def zoo():
                    - In(m.x, -m.lim, m.lim) + 0.5)
         return m, "AE"
 
-    return dict(ae_logic=ae_logic, ae_trigger_smooth=ae_trigger_smooth, ae_basic=ae_basic, ae_slices=ae_slices, ae_piecewise=ae_piecewise, dae_ts=dae_ts,
+    def ae_trigger_subname():
+        m = Model()
+        m.x = Var("x", [0.5, 1.5])
+        m.kq = Param("kq", [float(v) for v in sq(np.array([0.5, 1.5]))], triggerable=True, trigger_var=["x"], trigger_fun=sq)
+        m.e1 = Eqn("e1", m.kq * m.x - 1)
+        return m, "AE"
+
+    return dict(ae_trigger_subname=ae_trigger_subname, ae_logic=ae_logic, ae_trigger_smooth=ae_trigger_smooth, ae_basic=ae_basic, ae_slices=ae_slices, ae_piecewise=ae_piecewise, dae_ts=dae_ts,
                 dae_interleaved=dae_interleaved, ae_consts=ae_consts, ae_trigger_builtins=ae_trigger_builtins, dae_ts_index=dae_ts_index, dae_awu=dae_awu, fdae_heat=fdae_heat, ae_trigger=ae_trigger)
 
 
